@@ -206,3 +206,44 @@ void vh_perm_random(mzp_t *P, int n) {
   for (int i = 0; i < P->length; i++) P->values[i] = i;
   for (int i = 0; i < P->length && i < n; i++) P->values[i] = vh_randint(i, n - 1);
 }
+
+/* ---- operand factory (views aware) ---- */
+#include "vh_fam.h"
+int vh_views = 0;
+
+mzd_t *vh_mk(rci_t m, rci_t n, int force) {
+  int win = force < 0 ? vh_views : force;
+  if (!win) return vh_new(m, n);
+  static const int r0s[] = {0, 0, 1, 5};
+  static const int w0s[] = {0, 1, 1, 2, 3};
+  static const int xr[] = {0, 0, 1, 17, 64, 65, 130};
+  int r0 = r0s[vh_randint(0, 3)], w0 = w0s[vh_randint(0, 4)];
+  int below = vh_randint(0, 2) ? vh_randint(1, 3) : 0;
+  int right = xr[vh_randint(0, 6)];
+  mzd_t *P = vh_new(r0 + m + below, w0 * 64 + n + right);
+  switch (vh_randint(0, 2)) {
+  case 0: vh_fill_ones(P); break;
+  default: vh_fill_dense(P); break;
+  }
+  return vh_win(P, r0, w0 * 64, r0 + m, w0 * 64 + n);
+}
+
+mzd_t *vh_mk_kind(rci_t m, rci_t n, int kind) {
+  mzd_t *M = vh_mk(m, n, -1);
+  if (vh_views && kind == 2) { /* zero content inside a junk parent */
+    for (rci_t i = 0; i < m; i++)
+      for (rci_t j = 0; j < n; j++) M->data[(size_t)i * M->rowstride + j / 64] &= ~((word)1 << (j % 64));
+  } else
+    vh_fill_kind(M, kind);
+  return M;
+}
+
+int vh_pick(const int *list, int n) { return list[vh_randint(0, n - 1)]; }
+
+int vh_dim_small(int cap) {
+  static const int b[] = {1, 1, 2, 3, 7, 8, 9, 15, 16, 17, 31, 32, 33, 54, 63, 64, 65, 66, 100, 127, 128, 129, 130, 191, 192, 193, 200, 255, 256, 257, 300, 320};
+  for (;;) {
+    int d = vh_randint(0, 3) ? b[vh_randint(0, (int)(sizeof(b) / sizeof(int)) - 1)] : vh_randint(1, cap);
+    if (d <= cap) return d;
+  }
+}
